@@ -546,6 +546,169 @@ MUTANTS += [
       ('sqlite/src/lib.rs', "        if n == recycle_count {", "        if n == n {")),
 ]
 
+P = 'postgres/src/lib.rs'
+PC = 'postgres/src/config.rs'
+R = 'redis/src/lib.rs'
+RC = 'redis/src/config.rs'
+MUTANTS += [
+    m('B16-1', 'postgres recycle: no is_closed test', ['C16'], ['R16.1'],
+      (P, """        if client.is_closed() {
+            tracing::warn!(target: "deadpool.postgres", "Connection could not be recycled: Connection closed");
+            return Err(RecycleError::message("Connection closed"));
+        }
+""", "")),
+    m('B16-2', 'Verified sends no query', ['C16'], ['R16.1'],
+      (PC, "            Self::Verified => Some(\"\"),", "            Self::Verified => None,")),
+    m('B16-3', 'cache lookup ignores the parameter types', ['C16'], ['R16.2'],
+      (P, "        let key = StatementCacheKey {\n            query: Cow::Borrowed(query),\n            types: Cow::Borrowed(types),\n        };", "        let _ = types;\n        let key = StatementCacheKey {\n            query: Cow::Borrowed(query),\n            types: Cow::Borrowed(&[]),\n        };")),
+    m('B16-4', 'insert counts every call', ['C16'], ['R16.4'],
+      (P, "        if map.insert(key, stmt).is_none() {\n            let _ = self.size.fetch_add(1, Ordering::Relaxed);\n        }", "        let _ = map.insert(key, stmt);\n        let _ = self.size.fetch_add(1, Ordering::Relaxed);")),
+    m('B16-5', 'create does not attach the statement cache', ['C16'], ['R16.6'],
+      (P, "        self.statement_caches\n            .attach(&client_wrapper.statement_cache);\n", "")),
+    m('B16-6', 'registry detach keeps only the matching entry', ['C16'], ['R16.6'],
+      (P, "self.caches.lock().unwrap().retain(|sc| !sc.ptr_eq(&cache));", "self.caches.lock().unwrap().retain(|sc| sc.ptr_eq(&cache));")),
+    m('B16-7', 'Clean script lacks DISCARD SEQUENCES', ['C16'], ['R16.1'],
+      (PC, "        DISCARD TEMP; \\\n        DISCARD SEQUENCES;\\\n", "        DISCARD TEMP;\\\n")),
+    m('B16-8', 'recycle query error ignored', ['C16'], ['R16.1'],
+      (P, "                    Err(e.into())\n                }", "                    let _ = e;\n                    Ok(())\n                }")),
+    m('B16-9', 'transaction gets a fresh statement cache', ['C16'], ['R16.5'],
+      (P, "            txn: PgClient::transaction(&mut self.client).await?,\n            statement_cache: self.statement_cache.clone(),", "            txn: PgClient::transaction(&mut self.client).await?,\n            statement_cache: Arc::new(StatementCache::new()),")),
+    m('B16-10', 'statement cached before the prepare succeeded (inserted clone of a stale hit)', ['C16'], ['R16.3', 'R16.2'],
+      (P, "                let stmt = client.prepare_typed(query, types).await?;\n                self.insert(query, types, stmt.clone());", "                let stmt = client.prepare_typed(query, types).await?;\n                self.insert(query, &[], stmt.clone());")),
+    m('B16-11', 'Manager::detach does nothing', ['C16', 'C09'], ['R16.6', 'R09.5'],
+      (P, "        self.statement_caches.detach(&object.statement_cache);", "        let _ = object;")),
+    m('B16-12', 'registry clear skips the first cache', ['C16'], ['R16.6'],
+      (P, "        let caches = self.caches.lock().unwrap();\n        for cache in caches.iter() {\n            if let Some(cache) = cache.upgrade() {\n                cache.clear();", "        let caches = self.caches.lock().unwrap();\n        for cache in caches.iter().skip(1) {\n            if let Some(cache) = cache.upgrade() {\n                cache.clear();")),
+    m('B16-13', 'remove decrements size unconditionally', ['C16'], ['R16.4'],
+      (P, "        if removed.is_some() {\n            let _ = self.size.fetch_sub(1, Ordering::Relaxed);\n        }", "        let _ = self.size.fetch_sub(1, Ordering::Relaxed);")),
+
+    m('B17-1', 'no UNWATCH', ['C17'], ['R17.1'],
+      (R, "            .cmd(\"UNWATCH\")\n            .ignore()\n", "")),
+    m('B17-2', 'PING with a constant argument', ['C17'], ['R17.1'],
+      (R, "            .arg(&ping_number)", "            .arg(\"0\")")),
+    m('B17-3', 'reply not checked', ['C17'], ['R17.1'],
+      (R, "        if n == ping_number {\n            Ok(())\n        } else {\n            Err(managed::RecycleError::message(\"Invalid PING response\"))\n        }", "        let _ = n == ping_number;\n        Ok(())")),
+    m('B17-4', 'counter not advanced (fetch_add 0)', ['C17'], ['R17.1'],
+      (R, "self.ping_number.fetch_add(1, Ordering::Relaxed).to_string();", "self.ping_number.fetch_add(0, Ordering::Relaxed).to_string();")),
+    m('B17-5', 'PING before UNWATCH', ['C17'], ['R17.1'],
+      (R, "            .cmd(\"UNWATCH\")\n            .ignore()\n            .cmd(\"PING\")\n            .arg(&ping_number)\n            .query_async::<(String,)>(conn)", "            .cmd(\"PING\")\n            .arg(&ping_number)\n            .cmd(\"UNWATCH\")\n            .ignore()\n            .query_async::<(String,)>(conn)")),
+    m('B17-6', 'mismatch accepted, match rejected (inverted)', ['C17'], ['R17.1'],
+      (R, "        if n == ping_number {", "        if n != ping_number {")),
+    m('B17-7', 'cluster Connection::take clones the connection instead of taking the object', ['C17'], ['R17.2'],
+      ('redis/src/cluster/mod.rs', "        Object::take(this.conn)", "        (*this.conn).clone()")),
+
+    m('B18-1', 'keepalives ignored', ['C18'], ['R18.1'],
+      (PC, "        if let Some(keepalives) = self.keepalives {\n            cfg.keepalives(keepalives);\n        }\n", "")),
+    m('B18-2', 'hosts applied before host', ['C18'], ['R18.2'],
+      (PC, """        if let Some(host) = &self.host {
+            cfg.host(host.as_str());
+        }
+        if let Some(hosts) = &self.hosts {
+            for host in hosts.iter() {
+                cfg.host(host.as_str());
+            }
+        }
+""", """        if let Some(hosts) = &self.hosts {
+            for host in hosts.iter() {
+                cfg.host(host.as_str());
+            }
+        }
+        if let Some(host) = &self.host {
+            cfg.host(host.as_str());
+        }
+""")),
+    m('B18-3', 'default socket dirs added unconditionally', ['C18'], ['R18.2'],
+      (PC, "        if cfg.get_hosts().is_empty() {", "        if cfg.get_hosts().is_empty() || true {")),
+    m('B18-4', 'SslMode::Prefer converts to Require', ['C18'], ['R18.3'],
+      (PC, "            SslMode::Prefer => Self::Prefer,", "            SslMode::Prefer => Self::Require,")),
+    m('B18-5', 'revert D8: target_session_attrs not applied', ['C18'], ['R18.1'],
+      (PC, "        if let Some(target_session_attrs) = self.target_session_attrs {\n            cfg.target_session_attrs(target_session_attrs.into());\n        }\n", "")),
+    m('B18-6', 'default hosts decided before host/hosts are applied', ['C18'], ['R18.2'],
+      (PC, """        if let Some(host) = &self.host {
+            cfg.host(host.as_str());
+        }
+        if let Some(hosts) = &self.hosts {
+            for host in hosts.iter() {
+                cfg.host(host.as_str());
+            }
+        }
+        if cfg.get_hosts().is_empty() {""", """        let no_hosts = cfg.get_hosts().is_empty();
+        if let Some(host) = &self.host {
+            cfg.host(host.as_str());
+        }
+        if let Some(hosts) = &self.hosts {
+            for host in hosts.iter() {
+                cfg.host(host.as_str());
+            }
+        }
+        if no_hosts {""")),
+    m('B18-7', 'empty dbname accepted', ['C18'], ['R18.3'],
+      (PC, "            Some(\"\") => {\n                return Err(ConfigError::DbnameEmpty);\n            }\n", "")),
+    m('B18-8', 'connect_timeout fed from keepalives_idle', ['C18'], ['R18.1'],
+      (PC, "        if let Some(connect_timeout) = self.connect_timeout {\n            cfg.connect_timeout(connect_timeout);", "        if let Some(connect_timeout) = self.keepalives_idle {\n            cfg.connect_timeout(connect_timeout);")),
+    m('B18-9', 'create_pool ignores the runtime', ['C18'], ['R18.5'],
+      (PC, "        if let Some(runtime) = runtime {\n            builder = builder.runtime(runtime);\n        }\n        builder.build().map_err(CreatePoolError::Build)\n    }\n\n    #[cfg(not(target_arch = \"wasm32\"))]\n    /// Creates a new [`PoolBuilder`]", "        let _ = runtime;\n        builder.build().map_err(CreatePoolError::Build)\n    }\n\n    #[cfg(not(target_arch = \"wasm32\"))]\n    /// Creates a new [`PoolBuilder`]")),
+    m('B18-10', 'only the first of hosts is applied', ['C18'], ['R18.2'],
+      (PC, "            for host in hosts.iter() {\n                cfg.host(host.as_str());\n            }", "            if let Some(host) = hosts.first() {\n                cfg.host(host.as_str());\n            }")),
+    m('B18-11', 'user applied even when empty', ['C18'], ['R18.3'],
+      (PC, "        if let Some(user) = self.user.as_ref().filter(|s| !s.is_empty()) {", "        if let Some(user) = self.user.as_ref() {")),
+    m('B18-12', 'builder uses the default pool config', ['C18'], ['R18.5'],
+      (PC, "        let pool_config = self.get_pool_config();\n        Ok(Pool::builder(manager).config(pool_config))", "        let pool_config = PoolConfig::default();\n        Ok(Pool::builder(manager).config(pool_config))")),
+    m('B18-13', 'password unwrap (panic on None)', ['C18'], ['R18.4'],
+      (PC, "        if let Some(password) = &self.password {\n            cfg.password(password);\n        }", "        cfg.password(self.password.as_ref().unwrap());")),
+
+    m('B19-1', 'redis builder: url wins when both are given', ['C19'], ['R19.1'],
+      (RC, "            (Some(_), Some(_)) => return Err(ConfigError::UrlAndConnectionSpecified),", "            (Some(url), Some(_)) => crate::Manager::new(url.as_str())?,")),
+    m('B19-2', 'From<redis::RedisConnectionInfo>: username dropped', ['C19'], ['R19.2'],
+      (RC, """        Self {
+            db: info.db,
+            username: info.username,
+            password: info.password,
+            protocol,
+        }
+    }
+}
+
+#[derive(Debug)]""", """        Self {
+            db: info.db,
+            username: None,
+            password: info.password,
+            protocol,
+        }
+    }
+}
+
+#[derive(Debug)]""")),
+    m('B19-3', 'default queue mode Lifo', ['C19'], ['R19.3'],
+      ('src/managed/config.rs', "impl Default for QueueMode {\n    fn default() -> Self {\n        Self::Fifo", "impl Default for QueueMode {\n    fn default() -> Self {\n        Self::Lifo")),
+    m('B19-4', 'protocol RESP3 converts to RESP2', ['C19'], ['R19.2'],
+      (RC, "            ProtocolVersion::RESP3 => redis::ProtocolVersion::RESP3,", "            ProtocolVersion::RESP3 => redis::ProtocolVersion::RESP2,")),
+    m('B19-5', 'cluster builder: neither given uses the urls branch default of an empty list', ['C19'], ['R19.1'],
+      ('redis/src/cluster/config.rs', "                super::Manager::new(vec![ConnectionInfo::default()], self.read_from_replicas)?", "                super::Manager::new(Vec::<ConnectionInfo>::new(), self.read_from_replicas)?")),
+    m('B19-6', 'ConnectionAddr::TcpTls swaps host and port sources (insecure from default)', ['C19'], ['R19.2'],
+      (RC, """            } => Self::TcpTls {
+                host,
+                port,
+                insecure,
+                tls_params: None,
+            },""", """            } => Self::TcpTls {
+                host,
+                port,
+                insecure: { let _ = insecure; false },
+                tls_params: None,
+            },""")),
+    m('B19-7', 'timeouts no longer serde(default)', ['C19'], ['R19.3'],
+      ('src/managed/config.rs', "    #[cfg_attr(feature = \"serde\", serde(default))]\n    pub timeouts: Timeouts,", "    pub timeouts: Timeouts,")),
+    m('B19-8', 'sentinel builder: connections branch uses urls', ['C19'], ['R19.1'],
+      ('redis/src/sentinel/config.rs', "            (None, Some(connections)) => super::Manager::new(\n                connections.clone(),", "            (None, Some(_connections)) => super::Manager::new(\n                vec![ConnectionInfo::default()],")),
+    m('B19-9', 'Timeouts::new sets a wait timeout', ['C19'], ['R19.3'],
+      ('src/managed/config.rs', "    pub const fn new() -> Self {\n        Self {\n            create: None,\n            wait: None,", "    pub const fn new() -> Self {\n        Self {\n            create: None,\n            wait: Some(Duration::from_secs(30)),")),
+    m('B19-10', 'TlsMode::Insecure converts to Secure', ['C19'], ['R19.2'],
+      ('redis/src/sentinel/config.rs', "            TlsMode::Insecure => redis::TlsMode::Insecure,", "            TlsMode::Insecure => redis::TlsMode::Secure,")),
+    m('B19-11', 'ConnectionInfo: db section dropped (default redis info)', ['C19'], ['R19.2'],
+      (RC, "impl From<ConnectionInfo> for redis::ConnectionInfo {\n    fn from(info: ConnectionInfo) -> Self {\n        Self {\n            addr: info.addr.into(),\n            redis: info.redis.into(),", "impl From<ConnectionInfo> for redis::ConnectionInfo {\n    fn from(info: ConnectionInfo) -> Self {\n        Self {\n            addr: info.addr.into(),\n            redis: redis::RedisConnectionInfo::default(),")),
+]
+
 BENIGN = [
     m('N01-1', 'return_object: max_size >= size', ['C01'], [],
       (M, "        if slots.size <= slots.max_size {\n            slots.vec.push_back(inner);", "        if slots.max_size >= slots.size {\n            slots.vec.push_back(inner);")),
